@@ -92,4 +92,48 @@ theorem widthToCursor_body_eq_model (width : List A → Int) (chars : List (List
           simp [mkW, getV, setV, cmpV, cmpI, h2, h3]
         · simp [mkW, getV, setV, cmpV, cmpI, h1, h2]
 
+/-! ### `String()` and `CursorPosition()` -/
+
+@[simp] theorem genTi_string : genTi.string = tiString := rfl
+@[simp] theorem genTi_cursorPosition : genTi.cursorPosition = tiCursorPosition := rfl
+
+def mkS (m : TextInputCl.TIC A) : List A → Option (List A) → Env A := fun acc o =>
+  match o with
+  | none => [("m.content", .chars m.content), ("m.cursor", .num m.cursor), ("m.offset", .num m.offset), ("m.paste", .str m.paste),
+             ("l0", .str acc)]
+  | some g => [("m.content", .chars m.content), ("m.cursor", .num m.cursor), ("m.offset", .num m.offset), ("m.paste", .str m.paste),
+               ("l0", .str acc), ("l1", .str g)]
+
+def lastG (o : Option (List A)) : List (List A) → Option (List A)
+  | [] => o
+  | g :: gs => lastG (some g) gs
+
+theorem rangeStr (m : TextInputCl.TIC A) (body : Env A → Res A)
+    (hbody : ∀ acc o g, body (setV "l1" (.str g) (mkS m acc o)) = .ok (mkS m (acc ++ g) (some g))) :
+    ∀ (l : List (List A)) (acc : List A) (o : Option (List A)),
+      rangeN "l1" body (l.map V.str) (mkS m acc o) = .ok (mkS m (acc ++ l.flatten) (lastG o l)) := by
+  intro l
+  induction l with
+  | nil => intro acc o; simp [rangeN, lastG]
+  | cons g gs ih =>
+    intro acc o
+    simp only [List.map_cons, rangeN, hbody, lastG, List.flatten_cons]
+    rw [ih]
+    simp
+
+/-- `String()`: the concatenation of the content's graphemes. -/
+theorem string_body_eq_model (m : TextInputCl.TIC A) : tiStringI genTi m = some m.content.flatten := by
+  simp [tiStringI, runFn, tiString, execB, execS, evalE, envOfTI, getV, setV]
+  have henv : mkS m [] none =
+      [("m.content", .chars m.content), ("m.cursor", .num m.cursor), ("m.offset", .num m.offset), ("m.paste", .str m.paste),
+       ("l0", .str [])] := rfl
+  rw [← henv, rangeStr m _ ?_ m.content [] none]
+  · cases lastG none m.content <;> simp [mkS, getV]
+  · intro acc o g
+    cases o <;> simp [mkS, getV, setV]
+
+/-- `CursorPosition()` -/
+theorem cursorPosition_body_eq_model (m : TextInputCl.TIC A) : tiCursorPositionI genTi m = some m.cursor := by
+  simp [tiCursorPositionI, runFn, tiCursorPosition, execB, execS, evalE, envOfTI, getV]
+
 end VaxisModel.Lemmas.EdLangTIWidth
